@@ -1145,6 +1145,7 @@ func genInterfaceWrapper(n *node, typ reflect.Type) func(*frame) reflect.Value {
 			}
 			n2 = vi.node
 		}
+		cv := valueInterfaceValue(v) // the value held by the interface, of dynamic type n2.typ
 		v = getConcreteValue(v)
 		w := reflect.New(wrap).Elem()
 		w.Field(0).Set(v)
@@ -1162,7 +1163,7 @@ func genInterfaceWrapper(n *node, typ reflect.Type) func(*frame) reflect.Value {
 				m2, i2 := n2.typ.lookupMethod(names[i])
 				if m2 != nil {
 					nod := *m2
-					nod.recv = &receiver{n, v, i2}
+					nod.recv = &receiver{nil, cv, i2}
 					w.Field(i + 1).Set(genFunctionWrapper(&nod)(f))
 					continue
 				}
